@@ -184,6 +184,10 @@ fn random_tree(rng: &mut Rng64, depth: usize, names: &[String], unknown: bool) -
 
 fn anon(n: usize) -> Vec<String> { (0..n).map(|i| format!("x_{}", i)).collect() }
 const FANCY: [&str; 8] = ["é", "v_1+{14}", "变量", "a.b", "x'", "0", "tru", "a,b"];
+/// legal variable names that differ from the constants only by letter case or contain them: real
+/// variables in the support of non-constant Bdds (only the exact lowercase `true`/`false` are constants)
+const KEYWORDISH: [&str; 10] = ["TRUE", "True", "False", "FALSE", "tRuE", "fAlSe", "truex", "xtrue", "nottrue", "false_"];
+fn kw(n: usize, shift: usize) -> Vec<String> { (0..n).map(|i| s(KEYWORDISH[(i + shift) % KEYWORDISH.len()])).collect() }
 
 pub fn gen(tier: Tier, rng: &mut Rng64, out: &mut Out) {
     let thorough = tier == Tier::Thorough;
@@ -202,11 +206,25 @@ pub fn gen(tier: Tier, rng: &mut Rng64, out: &mut Out) {
         let five = build_trees(5, &leaves);
         for e in &five[5] { if rng.chance(1, 6) { run("C15.eval", &[names_field(&abc), sexp(e)], out); } }
     }
+    // --- keyword-like variable names: every tree with <= 3 nodes over {TRUE, False, tRuE, true, false}, as a tree and as text
+    let kw3 = kw(3, 0).into_iter().chain(vec![s("tRuE")]).collect::<Vec<_>>();   // TRUE, True, False, tRuE
+    let kleaves = vec![Variable(s("TRUE")), Variable(s("False")), Variable(s("tRuE")), Const(true), Const(false)];
+    let kall = build_trees(3, &kleaves);
+    for sz in 1..kall.len() { for e in &kall[sz] {
+        run("C15.eval", &[names_field(&kw3), sexp(e)], out);
+        run("C15.evals", &[names_field(&kw3), enc(&format!("{}", e))], out);
+    } }
+    for k in KEYWORDISH {
+        for pat in ["{}", "!{}", "{} & true", "{} | false", "{} => {}", "{} ^ true", "true ? {} : false", "({} <=> true)"] {
+            run("C15.evals", &[names_field(&[s(k)]), enc(&pat.replace("{}", k))], out);
+        }
+    }
     // --- random larger trees over 0..7 variables, some with an unknown name; strings through eval_expression_string
     let rounds = if thorough { 200000 } else { 2500 };
     for i in 0..rounds {
         let n = (i % 8) as usize;
-        let names: Vec<String> = if i % 5 == 0 && n <= FANCY.len() { FANCY[..n].iter().map(|x| s(x)).collect() } else { anon(n) };
+        let names: Vec<String> = if i % 5 == 0 && n <= FANCY.len() { FANCY[..n].iter().map(|x| s(x)).collect() }
+            else if i % 5 == 1 { kw(n, i as usize / 5) } else { anon(n) };
         let e = random_tree(rng, 2 + (i % 6) as usize, &names, i % 7 == 0);
         run("C15.eval", &[names_field(&names), sexp(&e)], out);
         if i % 3 == 0 {
@@ -223,19 +241,21 @@ pub fn gen(tier: Tier, rng: &mut Rng64, out: &mut Out) {
         for t in 0..count {
             let b = bdd_of_tt(n, &tt_from_index(n, t));
             run("C15.export", &[names_field(&anon(n)), fmt_bdd(&b)], out);
+            if n >= 1 { run("C15.export", &[names_field(&kw(n, (t % 7) as usize)), fmt_bdd(&b)], out); }
         }
     }
     let count4 = if thorough { 65536 } else { 3000 };
     for i in 0..count4 {
         let t = if thorough { i as u64 } else { rng.below(65536) };
         let b = bdd_of_tt(4, &tt_from_index(4, t));
-        let names: Vec<String> = if i % 4 == 0 { FANCY[..4].iter().map(|x| s(x)).collect() } else { anon(4) };
+        let names: Vec<String> = if i % 4 == 0 { FANCY[..4].iter().map(|x| s(x)).collect() } else if i % 4 == 1 { kw(4, i as usize / 4) } else { anon(4) };
         run("C15.export", &[names_field(&names), fmt_bdd(&b)], out);
     }
     for i in 0..(if thorough { 80000 } else { 1500 }) {
         let n = 5 + (i % 3) as usize;
         let b = random_bdd(rng, n);
-        run("C15.export", &[names_field(&anon(n)), fmt_bdd(&b)], out);
+        let names = if i % 3 == 0 { kw(n, i as usize) } else { anon(n) };
+        run("C15.export", &[names_field(&names), fmt_bdd(&b)], out);
         // valid but non-canonical diagrams: the export still denotes the function (no structural claim)
         if i % 4 == 0 {
             let v = noncanon_variant(rng, &b);
